@@ -149,6 +149,22 @@ def marker_span(toks, btoks):
     return toks[j:len(toks) - suf]
 
 
+def sqlite_roundtrip(text, v):
+    """SQLite executes SELECT <literal> FROM t (the statement of the `sel` position): the engine must hand back the value"""
+    import sqlite3
+
+    con = sqlite3.connect(":memory:")
+    try:
+        con.execute('CREATE TABLE "t" (a)')
+        con.execute('INSERT INTO "t" VALUES (1)')
+        row = con.execute(text).fetchone()
+        return row is not None and row[0] == v, repr(row)
+    except sqlite3.Error as ex:
+        return False, "engine error: " + str(ex)
+    finally:
+        con.close()
+
+
 def char_classes(s):
     return sorted({CLASS.get(c, "nonascii" if ord(c) > 127 else "plain") for c in s} - {"plain"}) or ["plain"]
 
@@ -181,7 +197,7 @@ def run(tier: str) -> int:
         strings.append("".join(rnd.choice(uni + ALPHABET) for _ in range(rnd.randint(1, 12))))
     strings = list(dict.fromkeys(strings))
     events, meta = [], []
-    skipped = 0
+    engine_checked = [0]
     for d, Q in qcls.items():
         for pname, f in pos.items():
             try:
@@ -209,6 +225,13 @@ def run(tier: str) -> int:
                 ev = lit.make_event(len(events), d, text, btext, "str", MARK, alts, sample_lex=(len(events) % 97 == 0))
                 events.append(ev)
                 meta.append((d, pname, kind, v, text))
+                if d == "sqlite" and pname == "sel" and kind == "str" and "\0" not in v:
+                    # (a NUL inside a literal ends the statement text for the C API; that is the driver's limit, not the renderer's)
+                    engine_checked[0] += 1
+                    ok, got = sqlite_roundtrip(text, v)
+                    if not ok:
+                        rep.discrepancy([[d, pname, "engine", c] for c in char_classes(v)], {"dialect": d, "position": pname, "value": repr(v), "text": text, "engine": got},
+                                        what="SQLite does not return the original value for the inlined literal")
     bad = lit.judge(events, rep)
     rep.traces = len(events)
     rep.evaluations = len(events)
@@ -235,6 +258,7 @@ def run(tier: str) -> int:
                 "distinct = (position, kind, value)")
     rep.exhaustive = True
     rep.extra["positions"] = sorted(pos)
+    rep.extra["sqlite_literal_roundtrips"] = engine_checked[0]
     rep.assumptions = ["numeric and JSON payload equality is decided in Python on the token the TLA+ lexer structure check accepts",
                        "non-SQLite literal grammars are those written in PT_Lex (no other engines in the sandbox)"]
     return rep.finish()
